@@ -177,31 +177,43 @@ def arr_binop(ex, op, a, b):
 
 
 def arr_inplace(ex, op, cur: VRef, val):
-    """a += v : numpy keeps a's shape and dtype; raises (operand unchanged) when v cannot be broadcast
-    into a's shape or the result cannot be cast with 'same_kind' casting."""
+    """a <op>= v. Library contract: numpy in-place ufuncs never change a's shape or dtype; they either
+    complete or raise (ValueError: not broadcastable / TypeError: casting rule 'same_kind', unsupported
+    operand) leaving `a` unchanged. Elementwise meaning is exact when v is a scalar or an array of a's
+    shape; any other operand (broadcast, list, foreign array type) is over-approximated by
+    'raise, or complete with unspecified element values'."""
     c = cell(ex, cur)
-    if ex.is_arr(val):
-        cv = cell(ex, val)
-        if len(cv.shape) > len(c.shape):
-            ex.throw("ValueError", "non-broadcastable output operand")
-        if len(cv.shape) == len(c.shape) and not ex.st.branch(shape_eq(c.shape, cv.shape)):
-            ones = z_or(*[(s == 1) if is_conc(s) else (z_int(s) == 1) for s in cv.shape])
-            if ex.st.branch(ones):
-                raise Unsupported("broadcasting of size-1 axes")
-            ex.throw("ValueError", "operands could not be broadcast together")
-        # same_kind casting: float result into an integer array is refused by numpy
-        if is_conc(c.dtype.v) and is_conc(cv.dtype.v) and elem_kind(c.dtype) == "int" and elem_kind(cv.dtype) == "float":
+    exact = False
+    if is_num(val):
+        exact = True
+        if isinstance(val, VFloat) and is_conc(c.dtype.v) and elem_kind(c.dtype) == "int":
             ex.throw("TypeError", "Cannot cast ufunc output with casting rule 'same_kind'")
-    elif isinstance(val, VFloat) and is_conc(c.dtype.v) and elem_kind(c.dtype) == "int":
-        ex.throw("TypeError", "Cannot cast ufunc output with casting rule 'same_kind'")
-    elif not is_num(val):
-        if isinstance(val, VNone):
-            ex.throw("TypeError", "unsupported operand type(s) for +=: 'float' and 'NoneType'")
-        raise Unsupported(f"in-place array op with {val!r}")
-    _, fa, fb = broadcast(ex, cur, val)
-    old = c.elem
-    cfg = ex.cfg
-    c.elem = lambda idx, fa=old, fb=fb: arith(cfg, op, fa(idx), fb(idx))
+    elif ex.is_arr(val):
+        cv = cell(ex, val)
+        if len(cv.shape) == len(c.shape) and ex.st.branch(shape_eq(c.shape, cv.shape)):
+            exact = True
+            if is_conc(c.dtype.v) and is_conc(cv.dtype.v) and elem_kind(c.dtype) == "int" and elem_kind(cv.dtype) == "float":
+                ex.throw("TypeError", "Cannot cast ufunc output with casting rule 'same_kind'")
+    if exact:
+        if not is_conc(c.dtype.v) or (ex.is_arr(val) and not is_conc(cell(ex, val).dtype.v)):
+            if ex.st.choose([True, True]) == 1:
+                ex.throw("TypeError", "Cannot cast ufunc output with casting rule 'same_kind'")
+        _, fa, fb = broadcast(ex, cur, val)
+        old = c.elem
+        cfg = ex.cfg
+        write_elem(ex, cur, lambda idx, fa=old, fb=fb: arith(cfg, op, fa(idx), fb(idx)))
+        return cur
+    k = ex.st.choose([True, True, True])
+    if k == 1:
+        ex.throw("ValueError", "operands could not be broadcast together")
+    if k == 2:
+        ex.throw("TypeError", "unsupported operand / casting for in-place operation")
+    probe = c.elem(tuple(z3.IntVal(0) for _ in c.shape))
+    kind = "float" if isinstance(probe, VFloat) else "int" if isinstance(probe, VInt) else "bool"
+    sort = {"float": z3.RealSort(), "int": z3.IntSort(), "bool": z3.BoolSort()}[kind]
+    f = z3.Function(ex.st.fresh_name("inplace"), *([z3.IntSort()] * len(c.shape)), sort)
+    wrap = {"float": VFloat, "int": VInt, "bool": VBool}[kind]
+    write_elem(ex, cur, lambda idx: wrap(f(*[z_int(i) for i in idx]) if idx else f()))
     return cur
 
 
@@ -747,9 +759,49 @@ def _npsum(ex, args, kwargs, fr):
     return reduce_sum(ex, args[0])
 
 
-@npfn("numpy.all", "ndarray.all", "numpy.any", "ndarray.any")
-def _npall(ex, args, kwargs, fr):
-    raise Unsupported("np.all / np.any reduction")
+def generic_indices(ex, ndim):
+    return [g for g in ex.st.ghost.get("generic", []) if len(g) == ndim]
+
+
+def in_bounds(idx, shape):
+    return z_and(*[z3.And(z_int(i) >= 0, z_int(i) < z_int(s)) for i, s in zip(idx, shape)])
+
+
+def _reduce_bool(is_any):
+    """np.any / np.all over a boolean array: fresh Bool b with the quantified meaning instantiated at the
+    generic indices registered by the harness (ghost 'generic') and a Skolem witness."""
+    def h(ex, args, kwargs, fr):
+        v = args[0]
+        if isinstance(v, VBool):
+            return v
+        if is_num(v):
+            return VBool(truth(v))
+        if not ex.is_arr(v):
+            raise Unsupported("np.any/np.all of a non-array")
+        if "axis" in kwargs:
+            raise Unsupported("np.any/np.all over an axis")
+        c = cell(ex, v)
+        b = ex.st.fresh_bool("any" if is_any else "all")
+        wit = tuple(ex.st.fresh_int("wit") for _ in c.shape)
+        tw = z_bool(truth(c.elem(wit)))
+        if is_any:
+            ex.st.assume(z3.Implies(b, z3.And(zb_(in_bounds(wit, c.shape)), tw)))
+            for g in generic_indices(ex, len(c.shape)):
+                ex.st.assume(z3.Implies(z3.And(z3.Not(b), zb_(in_bounds(g, c.shape))), z3.Not(z_bool(truth(c.elem(g))))))
+        else:
+            ex.st.assume(z3.Implies(z3.Not(b), z3.And(zb_(in_bounds(wit, c.shape)), z3.Not(tw))))
+            for g in generic_indices(ex, len(c.shape)):
+                ex.st.assume(z3.Implies(z3.And(b, zb_(in_bounds(g, c.shape))), z_bool(truth(c.elem(g)))))
+        return VBool(b)
+    return h
+
+
+def zb_(c):
+    return z3.BoolVal(c) if isinstance(c, bool) else c
+
+
+NP["numpy.any"] = NP["ndarray.any"] = _reduce_bool(True)
+NP["numpy.all"] = NP["ndarray.all"] = _reduce_bool(False)
 
 
 @npfn("numpy.array_equal")
